@@ -137,6 +137,12 @@ class Runner(object):
         self.obs = []
         self.armed = []          # op indices whose armed exception actually fired
         self.backend = cfg['backend']
+        if cfg.get('tol') is not None and self.backend.get('direct') and self.backend['kind'] == 'dir':
+            # (cases recorded before the generator stopped pairing rounding with a directory archive used as the
+            # cache: see gen_case - the dict snapshots cannot represent ==-equal keys that the directory names apart)
+            self.backend = dict(self.backend)
+            self.backend.pop('direct')
+            cfg = self.cfg = dict(cfg, backend=self.backend)
         self.rmode = gen.result_mode(self.backend)
         self.probe = gen.Probe(case['sig'], self.rmode)
         self.algo = effective_algo(cfg)
@@ -1005,6 +1011,10 @@ def gen_case(rng, focus, nops=None):
         names = [n for kd, n in gen.sig_names(sig) if kd == 'pos']
         if names and rng.random() < 0.3:
             cfg['ignore'] = enc([rng.choice(names + list(range(len(names))))])
+    if cfg.get('tol') is not None and b.get('direct') and b['kind'] == 'dir':
+        # rounding makes ==-equal keys of different type (round(1.005, 0) == 1.0 == 1): a dict merges them, a directory
+        # archive used *as* the cache names them apart - the harness's dict snapshots cannot represent that
+        b.pop('direct')
     if focus == 'C02' and rng.random() < 0.2:
         # ignored arguments put klepto's NULL marker into the key; the key must still find its
         # archived entry (only C02's own monitors are reported for these histories)
@@ -1454,6 +1464,8 @@ def gen_case_c20(rng):
            'keymap': km, 'backend': b}
     if rng.random() < 0.3:
         cfg['tol'] = rng.choice([0, 1]); cfg['deep'] = rng.random() < 0.5
+        if b.get('direct') and b['kind'] == 'dir':
+            b.pop('direct')        # (see gen_case: rounded ==-equal keys of different type)
     elif rng.random() < 0.15:
         cfg['deep'] = True
     names = [n for kd, n in gen.sig_names(sig) if kd == 'pos']
